@@ -584,18 +584,26 @@ pub mod iter {
             ID: Fn() -> T + Sync + Send,
             T: Send,
         {
-            Items(
-                self.chunks()
-                    .into_iter()
-                    .map(|c| {
-                        let mut acc = identity();
-                        for x in c {
-                            acc = fold_op(acc, x);
-                        }
-                        acc
-                    })
-                    .collect(),
-            )
+            // rayon folds each block of a split it chooses freely: the stand-in cuts the sequence
+            // into a seeded number of contiguous blocks and folds each on some worker
+            let items = self.ordered();
+            let n = items.len();
+            if n == 0 {
+                return Items(Vec::new());
+            }
+            let nblocks = 1 + super::coin(n.min(8) as u64) as usize;
+            let mut blocks: Vec<Vec<Self::Item>> = (0..nblocks).map(|_| Vec::new()).collect();
+            for (i, x) in items.into_iter().enumerate() {
+                blocks[i * nblocks / n].push(x);
+            }
+            let res = par_map(blocks, &|blk: Vec<Self::Item>| {
+                let mut acc = identity();
+                for x in blk {
+                    acc = fold_op(acc, x);
+                }
+                acc
+            });
+            Items(res.into_iter().flatten().collect())
         }
 
         /// splitting hints: accepted, without effect (results must not depend on them)
